@@ -26,3 +26,22 @@ def match(prop: str, violation: dict, known: list[dict]):
         except Exception:
             continue
     return None
+
+
+def _has_nonstr_key(m) -> bool:
+    if not isinstance(m, dict):
+        return False
+    k = m.get("k")
+    if k == "dict":
+        return any(kk.get("k") in ("kint", "kbool", "knone", "kfloat") for kk, _ in m["kvs"]) or any(
+            _has_nonstr_key(x) for _, x in m["kvs"])
+    if k in ("list", "tuple"):
+        return any(_has_nonstr_key(x) for x in m["xs"])
+    if k == "batch":
+        return any(_has_nonstr_key(it[2]) for it in m["items"])
+    return False
+
+
+@matcher("F9_nonstr_dict_key")
+def _f9(v):
+    return v["oracle"] == "C15.roundtrip_exact" and _has_nonstr_key(v["case"].get("value"))
